@@ -672,6 +672,9 @@ func (p *PolicyManager) createIPSet(newIPSetMap map[string]*ipsetTable) error {
 // -m set --match-set GLX-ip-xxxx dst \
 // -m multiport --dports 8080,8081 -j ACCEPT
 // If there are both tcp and udp ports, this adds a rule for each protocol
+// maxMultiportPorts is the max number of ports of a single iptables multiport match
+const maxMultiportPorts = 15
+
 func writePolicyChainRules(filterRules *bytes.Buffer, policyChainName, policyNameComment string,
 	srcTableNames, dstTableNames, tcpPorts, udpPorts []string) {
 	for _, srcTableName := range srcTableNames {
@@ -679,25 +682,35 @@ func writePolicyChainRules(filterRules *bytes.Buffer, policyChainName, policyNam
 			setRules := []string{
 				"-m", "set", "--match-set", srcTableName, "src",
 				"-m", "set", "--match-set", dstTableName, "dst"}
-			if len(tcpPorts) > 0 {
+			// the multiport match takes at most 15 ports, iptables-restore refuses the whole batch otherwise
+			for i := 0; i < len(tcpPorts); i += maxMultiportPorts {
+				end := i + maxMultiportPorts
+				if end > len(tcpPorts) {
+					end = len(tcpPorts)
+				}
 				args := []string{
 					"-A", policyChainName,
 					"-m", "comment", "--comment", policyNameComment,
 					"-p", "tcp",
 				}
 				args = append(args, setRules...)
-				args = append(args, "-m", "multiport", "--dports", strings.Join(tcpPorts, ","))
+				args = append(args, "-m", "multiport", "--dports", strings.Join(tcpPorts[i:end], ","))
 				args = append(args, "-j", "ACCEPT")
 				writeLine(filterRules, args...)
 			}
-			if len(udpPorts) > 0 {
+			// the multiport match takes at most 15 ports, iptables-restore refuses the whole batch otherwise
+			for i := 0; i < len(udpPorts); i += maxMultiportPorts {
+				end := i + maxMultiportPorts
+				if end > len(udpPorts) {
+					end = len(udpPorts)
+				}
 				args := []string{
 					"-A", policyChainName,
 					"-m", "comment", "--comment", policyNameComment,
 					"-p", "udp",
 				}
 				args = append(args, setRules...)
-				args = append(args, "-m", "multiport", "--dports", strings.Join(udpPorts, ","))
+				args = append(args, "-m", "multiport", "--dports", strings.Join(udpPorts[i:end], ","))
 				args = append(args, "-j", "ACCEPT")
 				writeLine(filterRules, args...)
 			}
